@@ -359,6 +359,11 @@ def main(argv=None):
                 v3 = _fails_same(prop, fcase, oracle)
                 if v3 is not None:
                     mcase, v2 = fcase, v3
+                    if getattr(mod, "SHRINK_AFTER_FINALIZE", False) and time.monotonic() <= min_deadline:
+                        mcase, spent2 = minimise(prop, mcase, oracle, budget=getattr(mod, "MINIMISE_BUDGET", 300) // 2,
+                                                 deadline=min_deadline)
+                        spent += spent2
+                        v2 = _fails_same(prop, mcase, oracle) or v2
             mtags = sorted(set(mod.tags(mcase)) | set(v2.get("tags", [])))
             entry = findings_mod.match(kf, oracle, mtags)
             if entry is not None:
